@@ -775,4 +775,46 @@ example : ∃ m d, MJ.Compile.staticKwargs [("title", Expr.const (.str "x")), ("
     insertPairs [(Val.str "title", .str "x"), (Val.str "n", .int 2)] [] = .ok d ∧ ∀ k, assocGet k m = assocGet k d :=
   static_kwargs_eq_dynamic [("title", .str "x"), ("n", .int 2)] (by decide)
 
+/-! ## neutral twins: statements that do nothing, in the reference semantics
+
+The auto-escape streams of the check compare a program with its *neutral twin* under HTML / JSON
+escaping (`harness/src/bin/c03_esc.inc`).  The rewrites that make a twin are laws of `exec` (the
+driver also renders every pair and reports a pair that differs as broken): -/
+
+/-- `{% if false %}…{% endif %}` does nothing, whatever its body is -/
+theorem twin_if_false (n : Nat) (ctx : Scope) (st : List Nat) (σ : State) (t : List Stmt) :
+    exec (n + 2) ctx st σ (.ifS (.const (.bool false)) t []) = .ok (σ, .normal) := by
+  simp [exec, evalExpr, litVal, truthy, execBlock, bind, Except.bind]
+
+/-- `{% if x %}{% endif %}` does nothing, whatever `x` is -/
+theorem twin_if_empty (n : Nat) (ctx : Scope) (st : List Nat) (σ : State) (x : String) :
+    exec (n + 2) ctx st σ (.ifS (.var x) [] []) = .ok (σ, .normal) := by
+  simp [exec, evalExpr, execBlock, bind, Except.bind]
+
+/-- `{% for x in [] %}…{% endfor %}` without an `else` does nothing -/
+theorem twin_for_empty (n : Nat) (ctx : Scope) (st : List Nat) (σ : State) (x : String) (body : List Stmt) :
+    exec (n + 3) ctx st σ (.forS (.var x) (.list []) none body []) = .ok (σ, .normal) := by
+  simp [exec, evalExpr, evalList, iterate, execBlock, bind, Except.bind]
+
+/-- `{% if true %}B{% endif %}` is `B` (an `if` opens no scope) -/
+theorem twin_if_true (n : Nat) (ctx : Scope) (st : List Nat) (σ : State) (body : List Stmt) :
+    exec (n + 2) ctx st σ (.ifS (.const (.bool true)) body []) = execBlock (n + 1) ctx st σ body := by
+  simp [exec, evalExpr, litVal, truthy, bind, Except.bind]
+
+/-- template data split in two prints the same -/
+theorem twin_text_split (n : Nat) (ctx : Scope) (st : List Nat) (σ : State) (a b : String) (rest : List Stmt) :
+    execBlock (n + 3) ctx st σ (.text a :: .text b :: rest) = execBlock (n + 1) ctx st { σ with out := σ.out ++ (a ++ b) } rest := by
+  simp [execBlock, exec, String.append_assoc]
+
+/-- a statement that does nothing in front of `rest` (costs one unit of fuel) -/
+theorem twin_block_noop (n : Nat) (ctx : Scope) (st : List Nat) (σ : State) (s : Stmt) (rest : List Stmt)
+    (h : exec (n + 2) ctx st σ s = .ok (σ, .normal)) :
+    execBlock (n + 3) ctx st σ (s :: rest) = execBlock (n + 2) ctx st σ rest := by
+  simp [execBlock, h]
+
+example : (renderTemplate 50 [] [.text "a", .ifS (.const (.bool false)) [.text "x"] [], .forS (.var "zq") (.list []) none [] [],
+      .ifS (.const (.bool true)) [.text "b"] []]).toOption = (renderTemplate 50 [] [.text "ab"]).toOption := by decide +kernel
+example : exec 5 [] [0] { heap := [[]], out := "o" } (.ifS (.var "nope") [] []) = .ok ({ heap := [[]], out := "o" }, .normal) :=
+  twin_if_empty 3 [] [0] _ "nope"
+
 end MJ.C03
